@@ -2,6 +2,7 @@
   C07 — the fact database behaves as ordered lists for every history.
 -/
 import Yld.Proofs.Store
+import Yld.Proofs.StoreShape
 namespace Yld.C07
 
 /-- assertz appends: the facts of name/arity afterwards are the old ones followed by the new
@@ -64,5 +65,46 @@ theorem clear_removes_everything (e : Engine) (name : String) (a : Nat) : e.clea
 theorem atom_goal_is_zero_arity (f : Nat) (w : World) (s : String) :
     factNameArgs (f+1) w (.atom s) = .ok (s, []) := by
   simp [factNameArgs, walk]
+
+/-! ### retract and retractall -/
+
+/-- Unification (hence matching a stored fact) never touches the store: the consumer is called at
+    most once, with the store as it was, and what it hands back is left alone. -/
+theorem matching_does_not_touch_the_store (f : Nat) (c : Fact) (args : List Term) (w : World) :
+    DBShape (matchFact f c args) w := matchFact_dbshape f c args w
+
+/-- **One step of retract**, for the next fact `c` of the snapshot that is still in the store:
+    `c` does not match and the loop goes on with the store as it was; or matching faults; or the
+    consumer is called exactly once, in a world where exactly `c` has been removed, and the loop
+    goes on with the rest of the snapshot when the consumer resumes. -/
+theorem retract_one_step (f : Nat) (name : String) (args : List Term) (c : Fact) (cs : List Fact) (w : World)
+    (hin : (w.facts name args.length).any (·.id == c.id) = true) :
+    (∃ w', w'.db = w.db ∧ ∀ k, retractLoop f name args (c :: cs) k w = retractLoop f name args cs k w')
+    ∨ (∃ r : R, r.1.db = w.db ∧ r.2 ≠ none ∧ ∀ k, retractLoop f name args (c :: cs) k w = r)
+    ∨ (∃ (pre : World) (post : World → World), pre.db = w.db ∧ (∀ w', (post w').db = w'.db) ∧
+        ∀ k, retractLoop f name args (c :: cs) k w =
+          andThenR (fun w' => retractLoop f name args cs k w')
+            (post (k (pre.setFacts name args.length ((w.facts name args.length).filter (·.id != c.id)))).1,
+             (k (pre.setFacts name args.length ((w.facts name args.length).filter (·.id != c.id)))).2)) :=
+  retract_step f name args c cs w hin
+
+/-- What the consumer of a retract answer sees: this predicate's facts in order with exactly the
+    matched fact gone; every other predicate as it was. -/
+theorem retract_answer_sees (name : String) (n : Nat) (c : Fact) (pre w : World) (hp : pre.db = w.db) :
+    (pre.setFacts name n ((w.facts name n).filter (·.id != c.id))).facts name n = (w.facts name n).filter (·.id != c.id)
+    ∧ ∀ name' n', (name', n') ≠ (name, n) →
+        (pre.setFacts name n ((w.facts name n).filter (·.id != c.id))).facts name' n' = w.facts name' n' :=
+  retract_answer_store name n c pre w hp
+
+/-- A fact somebody else removed while the retract was suspended is skipped. -/
+theorem retract_skips_facts_removed_meanwhile (f : Nat) (name : String) (args : List Term) (c : Fact) (cs : List Fact)
+    (k : K) (w : World) (hout : (w.facts name args.length).any (·.id == c.id) = false) :
+    retractLoop f name args (c :: cs) k w = retractLoop f name args cs k w :=
+  retract_skips_removed f name args c cs k w hout
+
+/-- retractall only deletes: what it keeps is a sublist of the facts, in their order. -/
+theorem retractall_keeps_a_sublist (f : Nat) (args : List Term) (cs keep : List Fact) (w w' : World) (keep' : List Fact)
+    (h : retractAllLoop f args cs keep w = (w', .ok keep')) : ∃ sub, keep' = keep ++ sub ∧ sub.Sublist cs :=
+  retractAll_keeps_sublist f args cs keep w w' keep' h
 
 end Yld.C07
